@@ -125,7 +125,11 @@ func runCase(t target, st *stream, rd *scriptReader) (v *verdict) {
 				if e != nil {
 					return e
 				}
-				ck.frame(w.Join())
+				b := w.Join() // one segment: no copy, still the face's own buffer
+				ck.frame(b)
+				// C11.retain: the application engine keeps what it is handed (std/engine/basic stores
+				// the raw wire of pending packets without copying), so keep it WITHOUT copying
+				rd.kept = append(rd.kept, b)
 				return nil
 			}, func(e error) error { return e })
 			f.VerifC11SetConn(scriptConn{rd})
@@ -147,6 +151,17 @@ func runCase(t target, st *stream, rd *scriptReader) (v *verdict) {
 		return &verdict{"C11.term", "returns before the end of the stream", fmt.Sprintf("returned after %d of %d bytes", rd.pos, len(st.data))}
 	case ck.k != st.blocks():
 		return &verdict{"C11.seq", "fewer frames than blocks at the end of the stream (block lost)", fmt.Sprintf("%d of %d blocks delivered", ck.k, st.blocks())}
+	}
+	// StreamFace.Run only: every block handed over is still intact after the whole stream was delivered
+	for k, b := range rd.kept {
+		if exp := st.data[st.offs[k]:st.offs[k+1]]; !bytes.Equal(b, exp) {
+			d := 0
+			for d < len(b) && d < len(exp) && b[d] == exp[d] {
+				d++
+			}
+			return &verdict{"C11.retain", "a delivered block is overwritten by later blocks (receive buffer reused)",
+				fmt.Sprintf("block %d (%d bytes) was delivered intact but differs from offset %d on once all %d blocks were delivered", k, len(exp), d, st.blocks())}
+		}
 	}
 	return nil
 }
@@ -410,6 +425,7 @@ func main() {
 		"Well-formed = minimal-length TLV-TYPE/TLV-LENGTH encodings (NDN packet format 0.3: the shortest encoding MUST be used), block size 2..MaxNDNPacketSize. The 5-byte form therefore only occurs for TLV-TYPE (>= 65536); a 5-byte TLV-LENGTH cannot be minimal for a block <= 8800 bytes. Non-minimal lengths, oversize blocks and Read results that carry data together with io.EOF are run for information only (out_of_scope_observations).",
 		"Scaled model: defn.MaxNDNPacketSize := 24 through the check-time source overlay (the buffer is 32x, both thresholds 1x the constant; no other use in readTlvStream). The real-constant build re-checks the boundary classes with 8800.",
 		"Deviation bounding: long streams are read with buffer-filling reads except for <= 2 (thorough: 3 in the scaled model) short reads placed at every boundary class of every block; short streams (<= 16/18 bytes) get every partition.",
+		"C11.retain applies to StreamFace.Run only: the reader/wire handed to onPkt is kept without copying and compared again after the whole stream was delivered, because the application engine retains the raw wire of packets (fresh buffer per block is part of that face's contract). readTlvStream reuses its buffer by design and documents the callback slice as valid during the call only, so there the comparison stays inside the callback.",
 		"A Read with an empty buffer is answered (0, nil) as sockets do; more than 4 of those, or more Read calls than bytes+deviations+8, is reported as non-termination (step counter, no wall clock).",
 	})
 }
